@@ -219,6 +219,9 @@ class Repo:
     for c_ in self.classes.values():
       _au.REPO_DEFINED.update(c_.annotations)
       _au.REPO_DEFINED.update(c_.attrs)
+      # instance fields stored by the methods of the class
+      _au.REPO_DEFINED.update(x_.attr for x_ in ast.walk(c_.node) if isinstance(x_, ast.Attribute) and isinstance(x_.ctx, ast.Store)
+                              and isinstance(x_.value, ast.Name) and x_.value.id in ('self', 'cls'))
     self.consulted = set()
     self.flattened = {}
     self.pinned_names = None
